@@ -6,6 +6,8 @@
 From V.lib Require Import Base.
 From V.model Require Import Client ClientSpec SendMachine SendAuth.
 From V.proofs Require Import Client_Proofs SendMachine_Proofs SendAuth_Proofs.
+From V.gen Require SendSites.
+From Coq Require Import String.
 
 (* the connection becomes accepted iff it already was, or the accept message is genuine: it carries
    the key derived from the configured server key and THIS connection's hash, and the signature is
@@ -108,3 +110,13 @@ Example C18_late_accept_example :
   arun [ASession; ABase SConnect; ABase SDrop; AAccept 1; AFlags; ASession; ABase SConnect; AFlags; AData; AAccept 1; AAccept 2; AData]
   = [[0]; [0]; [0]; [0; 1]; [0; 1]; [0]; [0]; [0; 0]; [0; 0]; [1; 0]; [0; 1]; [0; 1]].
 Proof. vm_compute. reflexivity. Qed.
+
+(* The ungated write path in the SOURCE (gen/SendSites.v, regenerated on every run by translator/sends.go from
+   pkg/client/remote_client.go): sendDirect is called from exactly the two places the send machine model has - from
+   sendMessage under the guard "handshake not complete and the message is a handshake type" (SendMachine.sm_step,
+   ASend) and from Ready with the ready message itself (AComplete).  Another caller (a keep-alive ping, say) writes a
+   request before the handshake completed without any of the model's steps. *)
+Theorem C18_source_send_direct_sites :
+  SendSites.send_direct_sites = [("Ready", "ready-message"); ("sendMessage", "handshake-guard")]%string.
+Proof. reflexivity. Qed.
+Print Assumptions C18_source_send_direct_sites.
